@@ -41,3 +41,32 @@ Definition brg_case (sv : stm_variant) (v : oct_variant) (ops : list stm_op) (ro
    | Some s => if 0 <=? st_pos s then Some (oct_run_reads v rops (brg_oct s)) else None
    | None => None
    end).
+
+(* ---------------------------------------------------------------- alternating use
+   segments of stream operations and segments of typed read calls, in turn, on one stream.
+   Observed: the trace of every stream-op segment; the results of every read segment and
+   Bytes() after it.  The run ends at a panicking stream op (or at a negative position,
+   which no run produces). *)
+Inductive brg_seg := BrgOps (ops : list stm_op) | BrgReads (rops : list oct_op).
+Inductive brg_seg_obs :=
+| BrgOpsObs (t : list stm_line)
+| BrgReadsObs (rs : list (oct_rd oct_val)) (bytes : res (list Z) unit).
+
+(* the stream after a sequence of read calls *)
+Fixpoint brg_after_reads (o : oct_stream) (rs : list (oct_rd oct_val)) : oct_stream :=
+  match rs with [] => o | (_, o', _) :: tl => brg_after_reads o' tl end.
+
+Fixpoint brg_phases (sv : stm_variant) (v : oct_variant) (s : stm_state) (segs : list brg_seg) : list brg_seg_obs :=
+  match segs with
+  | [] => []
+  | BrgOps ops :: tl =>
+      let t := brg_trace sv s ops in
+      BrgOpsObs (fst t) :: match snd t with Some s1 => brg_phases sv v s1 tl | None => [] end
+  | BrgReads rops :: tl =>
+      if 0 <=? st_pos s then
+        let rs := oct_run_reads v rops (brg_oct s) in
+        let s1 := brg_stm (brg_after_reads (brg_oct s) rs) in
+        BrgReadsObs rs (stm_bytes s1) :: brg_phases sv v s1 tl
+      else []
+  end.
+
